@@ -670,7 +670,7 @@ def run(ctx, only_cases=None):
         pinfo = vlib.coq_properties("C04")
         # Proofs/SideC04.vo (the regenerated side conditions) is a dependency of Properties/C04.v: built and checked by the call above
         vlib.proof_coverage(ctx, pinfo, "make -C coq Properties/C04.vo Proofs/SideC04.vo && coqc Properties/C04.v (Print Assumptions audit)",
-                            extra_obligations=8)  # the 8 regenerated side conditions in Proofs/SideC04.v
+                            extra_obligations=9)  # the 9 regenerated side conditions in Proofs/SideC04.v
     except vlib.Broken as b:
         broken = b   # keep going: search the implementation for a concrete failing cell first
         search_tables(ctx)
